@@ -89,6 +89,7 @@ struct G
     uint32_t spin_yields;
     int      shared_holds[kMaxClients]; // shared acquisitions of the container's own lock currently held
     uint32_t shared_seen, shared_next, shared_fired;
+    uint32_t hold_seen, hold_next, hold_fired;
     int      prio[kMaxClients];
     int      low_prio;
     Event    ev[kMaxEvents];
@@ -385,6 +386,7 @@ void begin_run(const Spec& spec)
     g.susp_seen = g.susp_next = g.susp_fired = 0;
     g.spin_yields = 0;
     g.shared_seen = g.shared_next = g.shared_fired = 0;
+    g.hold_seen = g.hold_next = g.hold_fired = 0;
     for (int i = 0; i < kMaxClients; ++i)
         g.shared_holds[i] = 0;
     for (int i = 0; i < kMaxClients; ++i)
@@ -512,6 +514,8 @@ uint32_t bad_unlocks() { return g.bad_unlock; }
 uint32_t spin_yields() { return g.spin_yields; }
 uint32_t shared_seen() { return g.shared_seen; }
 uint32_t shared_fired() { return g.shared_fired; }
+uint32_t hold_seen() { return g.hold_seen; }
+uint32_t hold_fired() { return g.hold_fired; }
 uint32_t fine_fired() { return g.fine_fired; }
 uint32_t susp_seen() { return g.susp_seen; }
 uint32_t susp_fired() { return g.susp_fired; }
@@ -828,6 +832,24 @@ extern "C"
                 return;
             }
         }
+        // (0c) inside the caller's own exclusive critical section: clients that need the lock stay blocked,
+        //      but a method that takes no lock can run right here, in the middle of a half-applied operation
+        //      (on a tree where every method locks, the forced switch finds nobody to switch to)
+        if (g.spec.nhold && g.held_own[self] > 0 && g.shared_holds[self] == 0 && g.held[self] == g.held_own[self] && tls_in_call > 0)
+        {
+            uint32_t n = g.hold_seen++;
+            while (g.hold_next < g.spec.nhold && g.spec.hold[g.hold_next] < n)
+                ++g.hold_next;
+            if (g.hold_next < g.spec.nhold && g.spec.hold[g.hold_next] == n)
+            {
+                ++g.hold_next;
+                ++g.hold_fired;
+                point(EV_FINE, g.cur_op[self], 1);
+                return;
+            }
+        }
+        else if (g.held_own[self] > 0 && g.shared_holds[self] == 0 && g.held[self] == g.held_own[self] && tls_in_call > 0)
+            ++g.hold_seen;
         // (1) code that calibration saw under the container's lock, now running inside a call
         //     without it: the locking discipline is not uniform for this code
         if (g.held_own[self] == 0 && tls_in_call > 0 && id < kMaxGuards && g_locked_bb[id])
